@@ -437,6 +437,9 @@ type joinCase struct {
 	N       int    `json:"n"`
 	PerRead int    `json:"per_read"`
 	Seed    uint64 `json:"seed"`
+	// Uniform: every request is a 12-byte read request, so that PerRead requests make a read of exactly 12*PerRead bytes (25 per read:
+	// 300 bytes, the size of the array a server connection reads into)
+	Uniform bool `json:"uniform,omitempty"`
 }
 
 // echoHandler answers every request with a fixed-shape response that names the request it was given.
@@ -467,22 +470,25 @@ func runJoin(c joinCase) harness.Result {
 		case 16:
 			r.Qty = 1
 		}
+		if c.Uniform {
+			r = spec.Req{FC: 3 + uint8(v&1), Unit: uint8(v >> 8), Tx: uint16(i), Addr: uint16(v>>16) & 0x0FFF, Qty: 1 + uint16(v>>40)%8}
+		}
 		fr := spec.EncodeRequest(spec.TCP, r)
 		reply := []byte{fr[0], fr[1], 0, 0, 0, 3, fr[6], fr[7], byte(len(fr))}
-		if v%5 == 0 {
+		if v%5 == 0 && !c.Uniform {
 			// a frame with a function code the library does not support: classified as such, answered with the illegal-function exception
 			ufc := []uint8{7, 8, 11, 20, 43, 65, 100}[int(v>>52)%7]
 			fr = spec.Frame(spec.TCP, r.Tx, r.Unit, []byte{ufc, 1, 2, 3})
 			reply = []byte{fr[0], fr[1], 0, 0, 0, 3, fr[6], ufc | 0x80, 1}
 		}
 		switch {
-		case prevFrame != nil && i%4 == 1:
+		case prevFrame != nil && i%4 == 1 && !c.Uniform:
 			// the previous frame once more under the next transaction id (a master polling)
 			fr = append([]byte(nil), prevFrame...)
 			fr[0], fr[1] = byte(i>>8), byte(i)
 			reply = append([]byte(nil), prevReply...)
 			reply[0], reply[1] = fr[0], fr[1]
-		case prevFrame != nil && i%6 == 2:
+		case prevFrame != nil && i%6 == 2 && !c.Uniform:
 			// the previous frame once more for the neighbouring unit, under the same transaction id (a master with a constant id)
 			fr = append([]byte(nil), prevFrame...)
 			fr[6] ^= 1
@@ -510,7 +516,11 @@ func runJoin(c joinCase) harness.Result {
 
 var chkJoin = harness.Define("assembler-joins-classifier-and-dispatcher",
 	func(t *rapid.T) joinCase {
-		return joinCase{N: rapid.SampledFrom([]int{100, 700, 2100, 4200}).Draw(t, "n"), PerRead: rapid.IntRange(1, 3).Draw(t, "per_read"), Seed: rapid.Uint64().Draw(t, "seed")}
+		c := joinCase{N: rapid.SampledFrom([]int{100, 700, 2100, 4200}).Draw(t, "n"), PerRead: rapid.IntRange(1, 3).Draw(t, "per_read"), Seed: rapid.Uint64().Draw(t, "seed")}
+		if rapid.IntRange(0, 3).Draw(t, "uniform") == 0 {
+			c.Uniform, c.PerRead = true, rapid.SampledFrom([]int{24, 25, 25, 26, 50}).Draw(t, "per_read_uniform")
+		}
+		return c
 	}, runJoin)
 
 func TestAssemblerJoin(t *testing.T) {
